@@ -268,3 +268,48 @@ func checkLoopClosures(c *core.Ctx, rule string, pkgs []string) {
 	c.OK(rule, "function literals inside loops in "+strings.Join(pkgs, ", "), 0, loops, fmt.Sprintf("%d literals inside loops, %d mention a loop variable; the escaping ones are reported", loops, lits))
 	c.Floor(rule, 1, "literals scanned")
 }
+
+// printfLike: position of the format argument of printf-style functions.
+var printfLike = map[string]int{
+	"fmt.Printf": 0, "fmt.Sprintf": 0, "fmt.Errorf": 0, "fmt.Fprintf": 1,
+	"log.Printf": 0, "log.Fatalf": 0, "log.Panicf": 0,
+	"github.com/pkg/errors.Errorf": 0, "github.com/pkg/errors.Wrapf": 1,
+}
+
+// checkFormatStrings (FMTSTR): the format argument of a printf-style call is a constant. A format built from data
+// (`fmt.Fprintf(w, record.String()+"\n")`) interprets every % in the data as a verb: the value 'x%b' prints as
+// 'x%!b(MISSING)' — the printed row is not the row.
+func checkFormatStrings(c *core.Ctx, rule string, pkgs []string) {
+	p := c.Prog
+	calls := 0
+	for _, fn := range p.AllFuncs(pkgs...) {
+		info := fn.Info()
+		name := p.FName(fn)
+		n := 0
+		ast.Inspect(fn.Decl.Body, func(nd ast.Node) bool {
+			call, ok := nd.(*ast.CallExpr)
+			if !ok {
+				return true
+			}
+			f, ok := core.Callee(info, call).(*types.Func)
+			if !ok || f.Pkg() == nil {
+				return true
+			}
+			idx, isPrintf := printfLike[f.Pkg().Path()+"."+f.Name()]
+			if !isPrintf || idx >= len(call.Args) {
+				return true
+			}
+			calls++
+			if tv := info.Types[call.Args[idx]]; tv.Value != nil {
+				return true
+			}
+			n++
+			c.SawFunc(name)
+			c.Bad(rule, fmt.Sprintf("%s→%s.%s#%d", name, f.Pkg().Name(), f.Name(), n), call.Pos(), 1,
+				fmt.Sprintf("the format argument %s is not a constant: any %% in the text it carries is read as a verb (a value 'x%%b' comes out as 'x%%!b(MISSING)'); print data with a constant format or with Fprint/Fprintln", core.ExprStr(call.Args[idx])))
+			return true
+		})
+	}
+	c.OK(rule, "printf-style calls in "+strings.Join(pkgs, ", "), 0, calls, fmt.Sprintf("%d printf-style calls scanned", calls))
+	c.Floor(rule, 1, "printf-style calls scanned")
+}
